@@ -61,7 +61,9 @@ MANIFEST = dict(
     technique="Lean 4 proof (small-step machine, measure + conservation invariants) + exhaustive-permutation differential correspondence",
 )
 
-CONT_OPTS = {c: [(a, mc) for a, (mc, cont) in ls.items() if cont] for c, (_, _, ls) in L.SCHEMA.items()}
+# lists the generator creates into (typed views such as `unions` are only read, never extended directly)
+CONT_OPTS = {c: [(a, mc) for a, (mc, cont) in ls.items() if cont and a not in L.VIEW.values()]
+             for c, (_, _, ls) in L.SCHEMA.items()}
 
 
 # ------------------------------------------------------------------ generator
@@ -83,9 +85,13 @@ def gen_sites(rng, base: L.Base, n: int, p_nested=0.55, p_ref=0.7):
             attr, cls = rng.choice(CONT_OPTS[base.root_cls[r]])
             cont = ("root", r)
             nested = False
+        force_hint = False
+        if attr == "classes" and rng.random() < 0.3:
+            # one of the other classes the list can create: only the `_type` hint selects it
+            cls, force_hint = "Union", True
         sites.append(dict(nid=nid, cls=cls, name=f"n{nid}", cont=cont, attr=attr, nested=nested, refs={}, alloc=[],
                           descr=(f"d{nid}" if "description" in L.SCHEMA[cls][0] and rng.random() < 0.3 else None),
-                          hint=rng.random() < 0.5, pid=None))
+                          hint=force_hint or rng.random() < 0.5, pid=None))
     by_cls: dict[str, list] = {}
     for s in sites:
         by_cls.setdefault(s["cls"], []).append(s)
@@ -285,7 +291,11 @@ def inject_fault(rng, doc, kind, rf):
 def gen_ops_doc(rng, base: L.Base):
     """set / sync / delete documents (model correspondence only)"""
     rc, rf, dp = base.root_id("rc"), base.root_id("rf"), base.root_id("dp")
-    t = rng.randint(0, 4)
+    t = rng.randint(0, 5)
+    if t == 5:  # the same promise id declared by an object description and by a sync entry (found or created)
+        return [{"parent": {"u": dp}, "ext": [["classes", [{"nid": 10000, "pid": "k", "scal": [["name", {"s": "n1000"}]]}]]]},
+                {"parent": {"u": dp}, "sync": [["classes", [{"nid": 10001, "nid2": 10501, "keys": [["name", {"s": "n1000"}]],
+                                                             "pid": "k"}]]]}]
     if t == 0:  # set list + scalar on a promised component
         k = rng.randint(1, 3)
         fs = [{"nid": 10000 + i, "pid": f"f{i}", "scal": [["name", {"s": f"n{10000 + i}"}]]} for i in range(k)]
@@ -373,6 +383,10 @@ def denote(doc, base: L.Base):
     if len(created) != len(objs):
         return "err", "unfulfilled"
     tok: dict[int, str] = {}
+    dflt0 = dict((a, c) for a, c in L.DFLT)
+
+    def view_attr(x, attr):
+        return L.VIEW.get((attr, x.get("ty") or dflt0[attr]), attr)
 
     def token(i):
         if i < 10000:
@@ -384,7 +398,7 @@ def denote(doc, base: L.Base):
             x, cont, attr = by_id[i]
             pt = token(cont[1]) if cont[0] == "site" else token(avail_val(cont[1]))
             nm = next(v["s"] for k, v in x["scal"] if k == "name")
-            tok[i] = f"{pt}/{attr}:{nm}"
+            tok[i] = f"{pt}/{view_attr(x, attr)}:{nm}"
         return tok[i]
 
     def reft(i):
@@ -407,7 +421,7 @@ def denote(doc, base: L.Base):
         view[token(x["nid"])] = {"cls": x.get("ty") or dflt[attr], "scal": sc, "lists": {}}
     for x, cont, attr in objs:
         pt = token(cont[1]) if cont[0] == "site" else token(avail_val(cont[1]))
-        view[pt]["lists"].setdefault(attr, []).append(token(x["nid"]))
+        view[pt]["lists"].setdefault(view_attr(x, attr), []).append(token(x["nid"]))
 
     # reference entries
     def refs_of(lists, owner_tok):
@@ -488,6 +502,61 @@ def classify_order_diff(doc, views):
     return "other"
 
 
+def gen_setlist_doc(rng, base: L.Base):
+    """a reference list assigned with `set` from promises (declared elsewhere) and base objects"""
+    rc, rf = base.root_id("rc"), base.root_id("rf")
+    k = rng.randint(1, 3)
+    fs = [{"nid": 10000 + i, "pid": f"f{i}", "scal": [["name", {"s": f"n{10000 + i}"}]]} for i in range(k)]
+    entries = [{"ref": {"p": f"f{i}"}} for i in range(k)]
+    for b in rng.sample(base.free_funcs, min(len(base.free_funcs), rng.randint(0, 2))):
+        entries.append({"ref": {"u": b}})
+    rng.shuffle(entries)
+    doc = []
+    cut = rng.randint(0, k)
+    for part in (fs[:cut], fs[cut:]):
+        if part:
+            doc.append({"parent": {"u": rf}, "ext": [["functions", part]]})
+    if len(doc) == 2:  # two instructions must not extend the same list: nest the second group below the first function
+        doc[1] = {"parent": {"p": fs[0]["pid"]}, "ext": [["functions", fs[cut:]]]}
+    if rng.random() < 0.5:
+        doc.append({"parent": {"u": rc}, "set": [["allocated_functions", {"l": entries}]]})
+    else:
+        doc.append({"parent": {"u": rc}, "ext": [["components", [{"nid": 10100, "pid": "c", "scal": [["name", {"s": "n10100"}]]}]]]})
+        doc.append({"parent": {"p": "c"}, "set": [["allocated_functions", {"l": entries}]]})
+    rng.shuffle(doc)
+    return doc
+
+
+def check_set_lists(out, base, doc, d, perm, promises, flavour, model=None):
+    """a list assigned with `set` holds exactly the listed references, in the listed order (when nothing else
+    touches that list) — read directly from the objects `apply` returned"""
+    def obj_of(v):
+        if "p" in v:
+            return promises.get(v["p"])
+        if "u" in v and model is not None and 1 <= v["u"] <= base.n:
+            return model.by_uuid(base.uuids[v["u"] - 1])
+        return None
+
+    for ins in d:
+        par = obj_of(ins["parent"])
+        if par is None:
+            continue
+        for attr, v in ins.get("set", []):
+            if "l" not in v or not all("ref" in y and obj_of(y["ref"]) is not None for y in v["l"]):
+                continue
+            touched = sum(1 for j in d for k, _ in j.get("set", []) + j.get("ext", []) + j.get("create", [])
+                          if k == attr and j["parent"] == ins["parent"])
+            if touched != 1:
+                continue
+            want = [obj_of(y["ref"]).uuid for y in v["l"]]
+            got = [x.uuid for x in getattr(par, attr)]
+            if got != want:
+                out.find("apply|set-list-differs-from-assignment|promise-entries",
+                         f"{base.key}: `set: {{{attr}: [...]}}` with promise entries leaves {len(got)} members in another "
+                         f"order/content than assigned (order {perm})",
+                         {"model": base.key, "doc": doc, "order": perm, "flavour": flavour})
+
+
 def run_doc(ctx, out, base: L.Base, doc, flavour, perms, req, pending):
     """apply `doc` in each order on the implementation; queue the model requests; run the monitor"""
     results = []
@@ -501,6 +570,7 @@ def run_doc(ctx, out, base: L.Base, doc, flavour, perms, req, pending):
         if st == "ok":
             view = L.render_impl(m, base, res)
             iv = {"view": view}
+            check_set_lists(out, base, doc, d, list(perm), res, flavour, m)
         else:
             view = None
             iv = res
@@ -536,6 +606,15 @@ def run_doc(ctx, out, base: L.Base, doc, flavour, perms, req, pending):
                          f"{base.key}: document with a {den[1]} promise fault is applied without error in order {list(perm)}", case)
             elif den[1] == "unfulfilled" and res["error"] != "unfulfilled":
                 out.hit("fault-other-error:" + res["error"])
+    if flavour == "ops":
+        sync_pids = [so.get("pid") for ins in doc for _, l in ins.get("sync", []) for so in l if so.get("pid")]
+        if set(sync_pids) & set(all_pids(doc)):
+            for perm, st, _, _ in results:
+                if st == "ok":
+                    out.find("apply|silently-accepts|dup-via-sync",
+                             f"{base.key}: a promise id declared by an object description and by a sync entry is accepted "
+                             f"in order {list(perm)}", {"model": base.key, "doc": doc, "order": list(perm), "flavour": flavour})
+                    break
     # (a) all orders agree exactly
     oks = [(p, v) for p, st, v, _ in results if st == "ok"]
     errs = [(p, iv) for p, st, _, iv in results if st != "ok"]
@@ -579,6 +658,14 @@ WITNESS2 = [  # list-entry variant: the deferred entry `!promise F1` lands after
 ]
 
 
+WITNESS3 = [  # a non-default `_type` hint on an object description that is deferred on a scalar promise
+    {"parent": {"u": "dp"}, "ext": [["classes", [{"nid": 10000, "ty": "Union", "pid": "derived",
+                                                  "scal": [["name", {"s": "n1000"}], ["super", {"p": "base"}]]}]]]},
+    {"parent": {"u": "dp"}, "ext": [["packages", [{"nid": 10001, "scal": [["name", {"s": "n1001"}]], "kids": [["classes", [
+        {"nid": 10002, "pid": "base", "scal": [["name", {"s": "n1002"}]]}]]]}]]]},
+]
+
+
 def subst_roots(doc, base):
     s = json.dumps(doc)
     for r in base.roots:
@@ -586,10 +673,17 @@ def subst_roots(doc, base):
     return json.loads(s)
 
 
+def pick(ctx, quick, thorough):
+    """budget; the widened re-run of a quick check (VERIF_WIDEN) stays within about twice the quick budget"""
+    if os.environ.get("VERIF_WIDEN") == "1":
+        return min(thorough, 2 * quick)
+    return ctx.pick(quick, thorough)
+
+
 def perms_for(ctx, n, cap_all):
     if n <= cap_all:
         return [list(p) for p in itertools.permutations(range(n))], True
-    k = ctx.pick(12, 60)
+    k = pick(ctx, 12, 60)
     seen = {tuple(range(n)), tuple(reversed(range(n)))}
     while len(seen) < min(k, math.factorial(n)):
         p = list(range(n))
@@ -602,10 +696,11 @@ def run(ctx: Ctx) -> Outcome:
     L.cap()
     out = Outcome(rule=RULE)
     rng = ctx.rng
-    bases = {k: L.Base(k) for k in (["empty52", "melody52", "write"] + (["melody50", "melody60"] if ctx.thorough else []))}
+    bases = {k: L.Base(k) for k in (["empty52", "melody52", "write"] +
+                                    (["melody50", "melody60"] if ctx.thorough and os.environ.get("VERIF_WIDEN") != "1" else []))}
     req: list[dict] = []
     pending: list = []
-    cap_all = ctx.pick(4, 5)
+    cap_all = 4 if os.environ.get("VERIF_WIDEN") == "1" else ctx.pick(4, 5)
     sizes = {}
     flav = {}
     exhaustive_docs = 0
@@ -622,6 +717,7 @@ def run(ctx: Ctx) -> Outcome:
     for base in bases.values():
         do(base, subst_roots(WITNESS, base), "plain")
         do(base, subst_roots(WITNESS2, base), "plain")
+        do(base, subst_roots(WITNESS3, base), "plain")
     # past disagreements (corpus), in their recorded orders
     for f in sorted((common.VERIF / "corpus" / "C12").glob("*.json")):
         c = json.loads(f.read_text())
@@ -629,7 +725,7 @@ def run(ctx: Ctx) -> Outcome:
         d = subst_roots(c["doc"], base)
         flav["corpus"] = flav.get("corpus", 0) + 1
         run_doc(ctx, out, base, d, "plain", c["orders"], req, pending)
-    ndocs = ctx.pick(110, 650)
+    ndocs = pick(ctx, 110, 650)
     for n in range(ndocs):
         r = rng.random()
         key = "empty52" if r < 0.75 else rng.choice([k for k in bases if k != "empty52"])
@@ -641,11 +737,13 @@ def run(ctx: Ctx) -> Outcome:
             doc, flavour = build_doc(rng, base, sites), "plain"
         elif f < 0.65:
             doc, flavour = build_doc(rng, base, sites, shared=True), "shared"
-        elif f < 0.75:
+        elif f < 0.74:
             doc, flavour = inject_fault(rng, build_doc(rng, base, sites), "ghost", base.root_id("rf")), "ghost"
-        elif f < 0.85:
+        elif f < 0.83:
             doc, flavour = inject_fault(rng, build_doc(rng, base, sites), "dup", base.root_id("rf")), "dup"
-        elif f < 0.92:
+        elif f < 0.90:
+            doc, flavour = gen_setlist_doc(rng, base), "ops"
+        elif f < 0.95:
             doc, flavour = inject_findp(rng, base, build_doc(rng, base, gen_sites(rng, base, rng.randint(0, 2)))), "findp"
         else:
             doc, flavour = gen_ops_doc(rng, base), "ops"
